@@ -31,6 +31,7 @@ def dispatch (line : String) : String :=
     | "c15l" => c15lOp args
     | "c16" => c16Op args
     | "c16w" => c16wOp args
+    | "c05big" => c05bigOp args
     | "c19" => c19Op args
     | "c04" => c04Op args
     | "c18x" => "again=same"   -- C18 on wide timestamps: the image is a function of the tree alone
